@@ -102,7 +102,7 @@ def run_case(case, ctx):
     ok_range = False
     for _ in range(40):
         # redraw (scaling parameters down would push a pure state towards |+...+>, whose X-basis probabilities vanish)
-        am, ph = gen.draw_model(rng, kind, n, nh, na, scales=gen.SCALES_MODERATE)
+        am, ph = gen.draw_model(rng, kind, n, nh, na, scales=gen.SCALES_MODERATE, phase_aux_bias=(case["rep"] % 4 == 1))
         kd, dense = R.state_dense(kind, am, ph, n)
         Zr = float(np.real(np.trace(R.as_rho(kd, dense))))
         pmin = min(float(np.min(R.born(kd, dense, b)[0])) / Zr for b in set(blist) | {"Z" * n})
